@@ -160,6 +160,29 @@ func updateConnContext(ctx context.Context, c net.Conn) context.Context {
 	return ctx
 }
 
+// tlsStateHandler makes sure every request carries the TLS state of its connection.
+// net/http only sets Request.TLS when the accepted net.Conn is a *tls.Conn (ours is wrapped
+// in hack.TLSClientHelloConn), and the HTTP/2 server leaves it nil for ":scheme: http";
+// but every connection served here is TLS, and httputil's SetXForwarded derives
+// X-Forwarded-Proto from Request.TLS.
+type tlsStateHandler struct {
+	next http.Handler
+}
+
+func (h tlsStateHandler) ServeHTTP(w http.ResponseWriter, r *http.Request) {
+	if r.TLS == nil {
+		if md, ok := metadata.FromContext(r.Context()); ok {
+			cs := md.ConnectionState
+			r.TLS = &cs
+		}
+	}
+	next := h.next
+	if next == nil {
+		next = http.DefaultServeMux
+	}
+	next.ServeHTTP(w, r)
+}
+
 func (server *Server) serveHTTP1() {
 	err := server.HTTPServer.Serve(server.http1ConnChannelListener)
 
@@ -194,6 +217,9 @@ func (server *Server) setupServe() {
 		server.ctx = context.Background()
 	}
 	server.HTTPServer.ConnContext = updateConnContext
+	if _, ok := server.HTTPServer.Handler.(tlsStateHandler); !ok {
+		server.HTTPServer.Handler = tlsStateHandler{server.HTTPServer.Handler}
+	}
 	server.HTTPServer.BaseContext = func(l net.Listener) context.Context {
 		return server.ctx
 	}
